@@ -404,27 +404,28 @@ func adapters() []*adapter {
 	for _, n := range []int{1, 2} {
 		n := n
 		as = append(as, &adapter{
-			name: fmt.Sprintf("iterator.FromChannel/%d", n), arity: n, params: 1 << n, asyncStop: true, lazyInputs: true, quickLen: 4 - n,
+			name: fmt.Sprintf("iterator.FromChannel/%d", n), arity: n, params: pow(len(msgErrTerms)+1, n), asyncStop: true, lazyInputs: true, racyUnderCancel: true, quickLen: 4 - n,
 			paramDesc: func(p int) string {
 				s := "messages:"
 				for i := 0; i < n; i++ {
-					if p&(1<<i) != 0 {
-						s += " Err"
+					if d := msgDigit(p, i); d != 0 {
+						s += " Err(" + termNames[msgErrTerms[d-1]] + ")"
 					} else {
 						s += " Iter"
 					}
 				}
-				return s + " (an Err message replaces that input by a Msg{Err: injected})"
+				return s + " (an Err message replaces that input by a Msg{Err: the error value of that kind})"
 			},
 			doc:  "no doc comment; IsOrdered: 'iterators are exhausted as they are received from the channel' => concatenation of the received iterators, a Msg.Err is an error at its position; Stop drains the channel and stops the remaining iterators",
-			open: "results after the first error (an Err message is consumed by the call that reports it)",
+			open: "results after the first error (an Err message is consumed by the call that reports it); every result once the request context is cancelled (select between ctx.Done() and the source channel)",
 			build: func(e *env, ins []InSpec, p int) (implIter, checker) {
 				ch := make(chan *iterator.Msg, len(ins))
 				rs := make([]*rin, len(ins))
 				for i, in := range ins {
-					if p&(1<<i) != 0 {
-						ch <- &iterator.Msg{Err: errInjected}
-						rs[i] = &rin{term: termErr}
+					if d := msgDigit(p, i); d != 0 {
+						t := msgErrTerms[d-1]
+						ch <- &iterator.Msg{Err: termErrs[t]}
+						rs[i] = &rin{term: t}
 						e.stats = append(e.stats, &stubStat{}) // keeps the indices aligned; never "open"
 						e.stats[len(e.stats)-1].doneSeen.Store(true)
 						continue
@@ -439,6 +440,12 @@ func adapters() []*adapter {
 	}
 	return as
 }
+
+// msgErrTerms: the error values a Msg.Err of iterator.FromChannel / iterator.Stream is given (all under a live context).
+var msgErrTerms = []int{termErr, termCanceledVal, termDeadlineVal, termWrappedCanceled, termWrappedDeadline, termLookalike}
+
+// msgDigit: digit i (base len(msgErrTerms)+1) of p: 0 = message i carries the input iterator, d > 0 = it is Msg{Err: kind d-1}.
+func msgDigit(p, i int) int { return (p / pow(len(msgErrTerms)+1, i)) % (len(msgErrTerms) + 1) }
 
 func pow(b, e int) int {
 	r := 1
